@@ -49,3 +49,43 @@
         for f in failures.iter().take(5) { println!("FAILING INPUT: {}", f); }
         assert!(failures.is_empty());
     }
+
+    /// the converse clause: a terminator that is not bracketed does end a sentence.  Texts over {あ 。 ！ 「 」 ( ) \ a} (no quoting
+    /// particle, no itemisation header, no dictionary): after every maximal run "terminators, then closing brackets / further terminators"
+    /// at bracket level 0 (stray closers ignored) that is followed by more text there must be a sentence boundary - and nowhere else.
+    #[test]
+    fn verif_oracle_unbracketed_terminators_end_sentences() {
+        let alphabet = ["あ", "。", "！", "「", "」", "(", ")", "\\", "a"];
+        let mut texts: Vec<String> = vec![String::new()];
+        let mut frontier = vec![String::new()];
+        for _ in 0..5 {
+            let mut nf = Vec::new();
+            for t in &frontier { for c in alphabet.iter() { let mut s = t.clone(); s.push_str(c); nf.push(s); } }
+            texts.extend(nf.iter().cloned());
+            frontier = nf;
+        }
+        let is_term = |c: char| c == '。' || c == '！';
+        let is_close = |c: char| ")」".contains(c);
+        let mut failures = Vec::new();
+        let sp = SentenceSplitter::new();
+        for t in &texts {
+            let chars: Vec<(usize, char)> = t.char_indices().collect();
+            let mut want: Vec<usize> = Vec::new();
+            let mut i = 0;
+            while i < chars.len() {
+                // "not bracketed": no bracket is open where the terminator stands
+                if is_term(chars[i].1) && level(&t[..chars[i].0]) == 0 {
+                    let mut j = i;
+                    while j < chars.len() && (is_term(chars[j].1) || is_close(chars[j].1)) { j += 1; }
+                    let end = if j < chars.len() { chars[j].0 } else { t.len() };
+                    if end < t.len() { want.push(end); }
+                    i = j;
+                } else { i += 1; }
+            }
+            let got: Vec<usize> = sp.split(t).take(t.len() + 2).map(|(r, _)| r.end).filter(|e| *e < t.len()).collect();
+            if got != want && failures.len() < 20 { failures.push(format!("text {:?}: sentence boundaries at bytes {:?}, unbracketed terminators end at {:?}", t, got, want)); }
+        }
+        println!("verif_oracle_unbracketed_terminators_end_sentences: {} texts, {} failures", texts.len(), failures.len());
+        for f in failures.iter().take(8) { println!("FAILING INPUT: {}", f); }
+        assert!(failures.is_empty());
+    }
